@@ -65,7 +65,7 @@ def main():
     violations = []          # (replay path, suffix)
 
     # ---- 1. proof stage
-    lean = vlib.lean_stage(mod.LEAN_MODULES)
+    lean = vlib.lean_stage(mod.LEAN_MODULES, recheck=(tier == "thorough"))
     print("[%s] proof stage: %s (%d theorems, %.1fs)%s" % (
         prop, "ok" if lean.ok else "BROKEN", len(lean.theorems), lean.wall,
         "" if lean.ok else " -- " + " | ".join(lean.problems)))
